@@ -78,6 +78,9 @@ pub struct MInst {
     pub unsure: bool,
     /// the last reported TCP probe of this (persistent) instance failed
     pub probe_failed: bool,
+    /// the weight is known exactly: it is the one the instance was created with, changed only by requests that name a
+    /// weight (HTTP: parameter present and != 1; gRPC: weight != 1 - the handlers' update tags)
+    pub weight_known: bool,
 }
 
 fn svc_key(s: u8) -> ServiceKey {
@@ -159,12 +162,16 @@ pub async fn exec_naming(id: &'static str, script: Value) -> ExecResult {
                         q.push_str(&format!("&metadata={}", urlencode(&json!({"zone": format!("z{}", meta), "v": i}).to_string())));
                         sim::count("probe.http_metadata_override", 1);
                     }
+                    // (an address that has expired meanwhile is registered anew by this request)
+                    if m.contains_key(&(s, a)) && !all_instances(&n, s).await.map(|l| l.iter().any(|x| x.ip.as_str() == ip_of(a))).unwrap_or(true) {
+                        m.remove(&(s, a));
+                    }
                     let resp = call(&app, ["POST", "PUT", "PATCH"][*method as usize % 3], &format!("/nacos/v1/ns/instance?{}", q), &[], None).await;
                     vensure!(resp.status == 200, &format!("{}.register_failed", id), "step {}: HTTP register answered {} {}", i, resp.status, resp.text());
                     let want_eph = *eph != 2;
                     match m.get_mut(&(s, a)) {
                         None => {
-                            m.insert((s, a), MInst { ephemeral: want_eph, enabled: *enabled != 2, weight: if *weight > 0 { *weight as f32 } else { 1.0 }, owner: Owner::Http, last_beat_us: now, fuzzy: false, unsure: false, probe_failed: false });
+                            m.insert((s, a), MInst { ephemeral: want_eph, enabled: *enabled != 2, weight: if *weight > 0 { *weight as f32 } else { 1.0 }, owner: Owner::Http, last_beat_us: now, fuzzy: false, unsure: false, probe_failed: false, weight_known: true });
                         }
                         Some(e) => {
                             // update rules of the code (the statement leaves precedence open): a field is
@@ -209,7 +216,7 @@ pub async fn exec_naming(id: &'static str, script: Value) -> ExecResult {
                         }
                         None => {
                             // a beat for an unknown instance registers it (enabled; ephemeral unless the beat says otherwise)
-                            m.insert((s, a), MInst { ephemeral: *eph != 2, enabled: true, weight: 1.0, owner: Owner::Http, last_beat_us: now, fuzzy: true, unsure: false, probe_failed: false });
+                            m.insert((s, a), MInst { ephemeral: *eph != 2, enabled: true, weight: 1.0, owner: Owner::Http, last_beat_us: now, fuzzy: true, unsure: false, probe_failed: false, weight_known: true });
                         }
                     }
                 }
@@ -239,11 +246,17 @@ pub async fn exec_naming(id: &'static str, script: Value) -> ExecResult {
                         "instance": {"ip": ip_of(a), "port": 8080, "weight": w, "healthy": true, "enabled": enabled, "ephemeral": eph, "clusterName": "DEFAULT", "metadata": {}}});
                     let payload = PayloadUtils::build_payload("InstanceRequest", req.to_string());
                     let meta = RequestMeta { connection_id: Arc::new(conn_id(c)), client_ip: "10.2.0.9".to_string(), ..Default::default() };
+                    if m.contains_key(&(s, a)) && !all_instances(&n, s).await.map(|l| l.iter().any(|x| x.ip.as_str() == ip_of(a))).unwrap_or(true) {
+                        m.remove(&(s, a));
+                    }
                     let res = n.invoker.handle(payload, meta).await;
                     vensure!(res.map(|r| r.success).unwrap_or(false), &format!("{}.register_failed", id), "step {}: gRPC register refused", i);
                     let fresh = !m.contains_key(&(s, a));
-                    let e = m.entry((s, a)).or_insert(MInst { ephemeral: *eph, enabled: *enabled, weight: w, owner: Owner::Grpc(c), last_beat_us: now, fuzzy: false, unsure: !*eph, probe_failed: false });
+                    let e = m.entry((s, a)).or_insert(MInst { ephemeral: *eph, enabled: *enabled, weight: w, owner: Owner::Grpc(c), last_beat_us: now, fuzzy: false, unsure: !*eph, probe_failed: false, weight_known: true });
                     if !fresh {
+                        if (w - 1.0).abs() > 0.001 {
+                            e.weight = w;
+                        }
                         e.owner = Owner::Grpc(c);
                         e.fuzzy = true;
                         // the gRPC handler never changes the ephemeral flag of an existing instance
@@ -278,7 +291,7 @@ pub async fn exec_naming(id: &'static str, script: Value) -> ExecResult {
                             }
                         } else {
                             let fresh = !m.contains_key(&(s, a));
-                            let e = m.entry((s, a)).or_insert(MInst { ephemeral: true, enabled: true, weight: 1.0, owner: Owner::Grpc(c), last_beat_us: now, fuzzy: false, unsure: false, probe_failed: false });
+                            let e = m.entry((s, a)).or_insert(MInst { ephemeral: true, enabled: true, weight: 1.0, owner: Owner::Grpc(c), last_beat_us: now, fuzzy: false, unsure: false, probe_failed: false, weight_known: true });
                             if !fresh {
                                 e.owner = Owner::Grpc(c);
                                 e.fuzzy = true;
@@ -370,6 +383,10 @@ pub async fn exec_naming(id: &'static str, script: Value) -> ExecResult {
                         let _ = rnacos::naming::cluster::handle_naming_route(&n.app, req, ext).await;
                     }
                     sim::count("probe.peer_message", 1);
+                    // (a synced copy replaces the instance as a whole)
+                    for e in m.values_mut() {
+                        e.weight_known = false;
+                    }
                 }
                 NStep::Probe { svc, ip, ok } => {
                     let (s, a) = (*svc % 3, *ip % 4);
@@ -398,6 +415,7 @@ pub async fn exec_naming(id: &'static str, script: Value) -> ExecResult {
                         e.owner = Owner::Http;
                         e.unsure = false;
                         e.fuzzy = true;
+                        e.weight_known = false;
                     }
                     prev_listed.clear();
                     prev_count.clear();
@@ -505,6 +523,11 @@ pub async fn exec_naming(id: &'static str, script: Value) -> ExecResult {
                     for x in &all[&s] {
                         let a = (0..4u8).find(|a| ip_of(*a) == x.ip.as_str()).unwrap_or(0);
                         if let Some(e) = m.get(&(s, a)) {
+                            // the weight is changed only by a request that names one
+                            if e.weight_known && e.ephemeral && x.ephemeral && !e.unsure {
+                                vensure!((x.weight - e.weight).abs() < 0.001, "C12.weight", "after step {} ({:?}): {}:8080 of {} is served with weight {} but its weight is {} (set at registration or by the last request that named a weight)", i, st, x.ip, SVCS[s as usize], x.weight, e.weight);
+                                sim::count("probe.weight_compared", 1);
+                            }
                             if !e.fuzzy {
                                 vensure!(x.ephemeral == e.ephemeral && x.enabled == e.enabled && (x.weight - e.weight).abs() < 0.001, "C12.flags", "after step {} ({:?}): {}:8080 of {} is served with ephemeral={} enabled={} weight={} but was registered with ephemeral={} enabled={} weight={}", i, st, x.ip, SVCS[s as usize], x.ephemeral, x.enabled, x.weight, e.ephemeral, e.enabled, e.weight);
                             }
